@@ -20,6 +20,29 @@ use std::{
 thread_local! {
     /// node whose task is currently being polled (0 = harness)
     pub static CURRENT_NODE: Cell<usize> = const { Cell::new(0) };
+    /// run-wide transport flavour: every node also runs the WebSocket transport and the addresses
+    /// the scenario hands out (`full_addr`) are WebSocket addresses, so that every connection of
+    /// the run is a `WebSocketConnection` (set by `base_config` from `knobs["transport"]`; every
+    /// run has its own OS thread)
+    pub static WS_MODE: Cell<bool> = const { Cell::new(false) };
+}
+
+/// Transport flavour of a whole-node case (an independent stream of the seed, so that the cases
+/// generated before this flavour existed are unchanged): in one run in five all connections go
+/// over the WebSocket transport. tungstenite treats an HTTP upgrade request arriving in more than
+/// 64 reads of fewer than 128 bytes on average as an attack, so the network of such a run does not
+/// fragment below 64 bytes per read.
+pub fn maybe_ws_transport(seed: u64, case: &mut Value) {
+    if !case["node_knobs"].is_object() || case["mode"].is_string() {
+        return;
+    }
+    let mut r = Rng::fork(seed, "ws-transport");
+    if r.chance(1, 5) {
+        case["node_knobs"]["transport"] = serde_json::json!("ws");
+        if case["net"].is_object() && case["net"]["max_chunk"].as_u64().unwrap_or(4096) < 64 {
+            case["net"]["max_chunk"] = serde_json::json!(64);
+        }
+    }
 }
 
 pub fn node_ip(i: usize) -> IpAddr {
@@ -68,11 +91,15 @@ pub fn ws_full_addr(seed: u64, i: usize) -> Multiaddr {
 
 /// does node `i` run the WebSocket transport next to TCP in this run (`knobs["ws_nodes"]`)
 pub fn has_ws(knobs: &Value, i: usize) -> bool {
-    knobs["ws_nodes"].as_array().is_some_and(|a| a.iter().any(|x| x.as_u64() == Some(i as u64)))
+    knobs["transport"] == "ws" || knobs["ws_nodes"].as_array().is_some_and(|a| a.iter().any(|x| x.as_u64() == Some(i as u64)))
 }
 
-/// listen address with `/p2p/<peer>` appended
+/// the address of node `i` the scenario hands out, `/p2p/<peer>` appended: TCP, or WebSocket in
+/// a run of the WebSocket flavour
 pub fn full_addr(seed: u64, i: usize) -> Multiaddr {
+    if WS_MODE.with(|c| c.get()) {
+        return ws_full_addr(seed, i);
+    }
     listen_addr(i).with(multiaddr::Protocol::P2p(peer_id(seed, i).into()))
 }
 
@@ -102,6 +129,9 @@ pub fn base_config(handle: &Handle, seed: u64, i: usize, knobs: &Value) -> Confi
     let mut yamux = litep2p::yamux::Config::default();
     if let Some(w) = knobs["yamux_split"].as_u64() {
         yamux.set_split_send_size(w as usize);
+    }
+    if knobs["transport"] == "ws" {
+        WS_MODE.with(|c| c.set(true));
     }
     let ws = has_ws(knobs, i).then(|| WsConfig {
         listen_addresses: vec![ws_listen_addr(i)],
